@@ -53,6 +53,9 @@ Start ==
     \/ \E g \in G : Lowest(gst, G, g, "live") /\ DropGuard(g) /\ H_("Drop", "g", g, "")
     \/ \E f \in F : Lowest(fst, F, f, "live") /\ FUpgrade(f) /\ H_("Drop", "f", f, "")
     \/ \E s \in S : SSend(s) /\ H_("Drop", "s", s, smode[s])
+    \* the slot guard is dropped by the unwinding of a panic of the thread that holds it (after its last
+    \* mutation): the same steps, and the property expects the same (value present as last mutated)
+    \/ "DropUnwind" \in SeqOps /\ \E s \in S : SSend(s) /\ H_("DropUnwind", "s", s, smode[s])
 
 Continue ==
     /\ \/ opc = "d_value" /\ DropOwner1
